@@ -6,7 +6,7 @@ TB = ("Trusted base: Python's ast / clang 14's parser, the checker's own CFG, "
       "/verif/spec reference tables. ")
 
 # properties whose check is finished and registered in MANIFEST.json
-READY = ["C01", "C02", "C03", "C05", "C06", "C07", "C08", "C09", "C11", "C12", "C13", "C14", "C15", "C16", "C17", "C18", "C19", "C20"]
+READY = ["C%02d" % i for i in range(1, 21)]
 
 CLAIMS = {
     "C02": {
@@ -104,5 +104,25 @@ CLAIMS = {
                 "parse_mts(gen_mts(x)) == x for all 112 valid (modulation, TSC set, TSC) combinations and NOPE, all 256 octets parse; "
                 "burst-length and legacy-padding rules give back the sent length for every encodable length.",
         "note": TB + "Not decided: equality of every field for every concrete message (the runtime round trip itself); fields not on the wire (mod_type on v0).",
+    },
+    "C04": {
+        "technique": "layout descriptors (byte-layout abstract interpretation) vs reference layout table; clang-AST extraction of trxcon's field<-octet expressions, guards, switch labels; exhaustive folding of the soft-bit conversion over all 256 octets; buffer-size agreement",
+        "text": "Decides that both codecs implement the reference layout (spec/trxd.json) for all field values: per class/version every header field is "
+                "written at and read from the documented offset with the documented width, byte order, sign convention and bit positions, nothing "
+                "else is written, MTS = code|set in bits 6..3 + TSC, NOPE bit 7, soft bits as 127 - s; trxcon's receive path reads tn/fn/rssi/toa256/"
+                "burst from the same octets, only after read_len >= 8 and version 0, accepts exactly {148, 444} (+2 legacy octets stripped), "
+                "converts soft bits identically to the toolkit's table for all 256 octets, delivers only FN < 2715648; the transmit path "
+                "stores tn/fn/pwr/bits at the documented offsets with length 6 + burst; each side's receive buffer holds the other's largest datagram.",
+        "note": TB + "Not decided: numeric equality of decoded values for every message. osmo_load32be/osmo_store32be/memcpy are modelled.",
+    },
+    "C10": {
+        "technique": "forward substitution + linear normal forms of the stored metadata, decision tables of the randomised properties, constant folding of the training-sequence table and slice offsets, length-tracking interpretation of the burst generators",
+        "text": "Decides the formulas and positions for all settings: trans() copies fn/tn, converts bits through ubit2sbit and takes the recipient's "
+                "version; bursts go to L1 with legacy padding; RSSI = sender power base - sender attenuation - burst attenuation - 110 (or the "
+                "FAKE_RSSI window), ToA256 = window value - 256 x sender TA, C/I from its window, each window = base or "
+                "randint(base - thr, base + thr); on v1 modulation = pick_by_bl(len(sent burst)), TSC/TSC set from TrainingSeqGMSK.pick "
+                "for GMSK else 0; pick() compares the slices [61:87], [8:49], [42:106] with sequences of the matching burst type; the "
+                "generators place the training sequence at exactly those offsets in 148-bit bursts; the sequence table equals the reference copy.",
+        "note": TB + "Not decided: numeric values for concrete configurations; randomised values beyond their window bounds; the training-sequence reference is the tree's own content for entries not cross-read against TS 45.002 (detects change).",
     },
 }
